@@ -144,7 +144,53 @@ fn cmd_run(args: &[String]) -> i32 {
     }
     println!("VERIF_SEED={} prop={} runs={} first_run={} threads={} tier={}", seed, prop_s, runs, first_run, threads, tier);
 
-    let out = run_batch(prop, seed, first_run, runs, threads, &known, hashes_file.is_some(), true);
+    let mut out = run_batch(prop, seed, first_run, runs, threads, &known, hashes_file.is_some(), true);
+    // A violation counts only if it is still there once every injected fault (identifier panics,
+    // failing sinks, nested observations, panicking row iterators) is removed from the run: the
+    // properties do not speak about callers whose own code blows up. Otherwise the batch resumes
+    // behind that run.
+    let mut fault_induced: Vec<serde_json::Value> = Vec::new();
+    loop {
+        let Some((i, res)) = &out.first_violation else { break };
+        let Some(Stop::Violation(v)) = &res.stop else { break };
+        let stripped = strip_faults(&res.steps);
+        let survives = stripped == res.steps || {
+            let (cfg, known2, v2) = (res.cfg.clone(), known.clone(), v.clone());
+            std::thread::scope(|sc| {
+                std::thread::Builder::new()
+                    .stack_size(16 << 20)
+                    .spawn_scoped(sc, move || {
+                        let (stop, _, _) = execute(&cfg, &stripped, &known2);
+                        matches!(stop, Some(Stop::Violation(w)) if w.property == v2.property)
+                    })
+                    .expect("HARNESS: spawn")
+                    .join()
+                    .unwrap_or(false)
+            })
+        };
+        if survives {
+            break;
+        }
+        println!("note: run {} diverges only under an injected fault (check {}); not a violation of {} — resuming behind it", i, v.check, prop_s);
+        fault_induced.push(serde_json::json!({"run": i, "check": v.check}));
+        let next_first = *i + 1;
+        let done_runs = out.runs;
+        let end = first_run + runs;
+        if next_first >= end || fault_induced.len() >= 20 {
+            out.first_violation = None;
+            break;
+        }
+        let mut rest = run_batch(prop, seed, next_first, end - next_first, threads, &known, false, true);
+        rest.runs += done_runs;
+        rest.stats.merge(&out.stats);
+        rest.nontrivial_sigs.extend(out.nontrivial_sigs.iter().copied());
+        rest.interleavings.extend(out.interleavings.iter().copied());
+        rest.samples = std::mem::take(&mut out.samples);
+        rest.harness_errors.extend(out.harness_errors.iter().cloned());
+        rest.hashes = std::mem::take(&mut out.hashes);
+        out = rest;
+    }
+    let out = out;
 
     if let Some(f) = hashes_file {
         let mut s = String::new();
